@@ -1,5 +1,6 @@
 """C18 - an accepted configuration never crashes a later lint run (spec: ConfigTotality / ConfigTotalityTrace)."""
 import json
+import os
 import vlib
 from vlib import prints, write_ndjson, read_ndjson, MachineryError
 
@@ -42,7 +43,11 @@ def run(ctx, cases_override=None):
     trace.sort(key=lambda r: r.get("id", 0))
     write_ndjson(tpath, trace)
     # ---- JUDGE
-    j = ctx.tlc("ConfigTotalityTrace", "ConfigTotalityTrace.cfg", workers=1, files={"c18_trace.ndjson": tpath},
+    # development aid: C18_MUSTEXPAND_TOTAL=FALSE binds the trace to the pre-F7-fix semantics (used with
+    # VERIF_REPO pointing at a tree with mutants/C18-revert-f7.patch applied to validate the Expand model)
+    jcfg = "SPECIFICATION TraceSpec\nCONSTANTS\n  MustExpandTotal = %s\n  Full = TRUE\nCHECK_DEADLOCK FALSE\n" % (
+        "FALSE" if os.environ.get("C18_MUSTEXPAND_TOTAL") == "FALSE" else "TRUE")
+    j = ctx.tlc("ConfigTotalityTrace", "c18_judge.cfg", workers=1, files={"c18_trace.ndjson": tpath, "c18_judge.cfg": jcfg},
                 timeout=3000, heap="8g")
     done = prints(j, "DONE")
     if not done or done[0][0] != len(trace):
